@@ -18,7 +18,8 @@ CHECKS = {
              "tombstone dropping at the base level; every history within small bounds plus seeded longer ones are run on the real compactor and "
              "after each step the projected real layout (Document() + scan of every table) must show the last write of every key for "
              "search-order point reads, merged scans and the real LevelList.ScanPrefix, with sorted non-overlapping levels >= 1 and no newer "
-             "version beneath an older one; the recorded layouts are validated a second time by TLC; a policy mismatch is drift, never an alarm.",
+             "version beneath an older one - also for the list handed to Compactor.Compact after the call (readers keep using it; OnlyFlushAndSwapChangeLayout "
+             "in the model) and for the list a swap replaced; the recorded layouts are validated a second time by TLC; a policy mismatch is drift, never an alarm.",
         note="Bounded: <=5 keys, <=6 levels, <=9 flushes per history, 10 settings (tiny table sizes so that middle and multi-table levels are "
              "reached); 1-byte keys, one 9000-byte value class; point reads are emulated on the projection in the intended L0 order "
              "(LevelList.Get itself belongs to C07); table file encoding belongs to C17; the dkv.DB arm uses puts only and 6 hard-coded levels."),
